@@ -165,6 +165,37 @@ def phi_(cond: Term, a: Term, b: Term, tag: str = "phi") -> Term:
 
 _REPO = [None]
 
+#: leading positional parameters of library callables the package passes arguments to both
+#: ways (so `split(key, num=3)` and `split(key, 3)` are one term); by full name or, for the
+#: TFP classes that are reached through several substrate aliases, by class name
+LIB_SIGNATURES = {
+    "jax.random.split": ["key", "num"], "jax.random.PRNGKey": ["seed"],
+    "jax.random.fold_in": ["key", "data"], "jax.random.normal": ["key", "shape", "dtype"],
+    "jax.random.uniform": ["key", "shape", "dtype", "minval", "maxval"],
+    "jax.random.permutation": ["key", "x"], "jax.random.gamma": ["key", "a", "shape"],
+    "jax.random.categorical": ["key", "logits", "axis", "shape"],
+    "jax.lax.cond": ["pred", "true_fun", "false_fun"],
+    "jax.lax.scan": ["f", "init", "xs", "length"],
+    "jax.lax.fori_loop": ["lower", "upper", "body_fun", "init_val"],
+    "jax.lax.while_loop": ["cond_fun", "body_fun", "init_val"],
+    "jax.vmap": ["fun", "in_axes", "out_axes"], "jax.tree_util.tree_map": ["f", "tree"],
+    "open": ["file", "mode"], "dill.dump": ["obj", "file"], "dill.load": ["file"], "copy.deepcopy": ["x", "memo"],
+    "dataclasses.replace": ["obj"],
+}
+LIB_CLASS_SIGNATURES = {"Invert": ["bijector"],
+                        "TransformedDistribution": ["distribution", "bijector"]}
+
+
+def _lib_params(f):
+    nm = fn_name(f) if f[0] in ("g", "n") else None
+    if nm is None and f[0] == "a":
+        return LIB_CLASS_SIGNATURES.get(f[2])
+    if nm is None:
+        return None
+    if nm in LIB_SIGNATURES:
+        return LIB_SIGNATURES[nm]
+    return LIB_CLASS_SIGNATURES.get(nm.rsplit(".", 1)[-1])
+
 
 def callee_params(repo, f, self_cls=None):
     """Ordered parameter names of a resolvable liesel callee (without self/cls)."""
@@ -544,18 +575,26 @@ class Evaluator:
         params = [a.arg for a in e.args.posonlyargs + e.args.args + e.args.kwonlyargs]
         if e.args.vararg:
             params.append("*" + e.args.vararg.arg)
+        # bound names are canonical (`_l<depth>_<i>`): renaming a lambda's parameter
+        # changes no term
+        depth = getattr(self, "_lam_depth", 0)
+        self._lam_depth = depth + 1
+        canon = []
         saved = {}
-        for p in params:
+        for i_, p in enumerate(params):
             p_ = p.lstrip("*")
+            cn = f"_l{depth}_{i_}"
+            canon.append(("*" if p.startswith("*") else "") + cn)
             saved[p_] = self.env.vars.get(p_)
-            self.env.vars[p_] = n(p_)
+            self.env.vars[p_] = n(cn)
         body = self.expr(e.body)
+        self._lam_depth = depth
         for p_, old in saved.items():
             if old is None:
                 self.env.vars.pop(p_, None)
             else:
                 self.env.vars[p_] = old
-        return ("lambda", tuple(params), body)
+        return ("lambda", tuple(canon), body)
 
     def _comp(self, kind, elts, generators):
         saved = dict(self.env.vars)
@@ -603,6 +642,25 @@ class Evaluator:
         args = tuple(self._fn_value(a) for a in args)
         kwargs = [(k, self._fn_value(v)) for k, v in kwargs]
         args, kwargs = self._canon_call(f, args, kwargs)
+        if f[0] == "lambda" and not kwargs:
+            # applying a function value on the spot: (lambda a, b: e)(x, *ys) is e[a := x, ...]
+            params = [p for p in f[1]]
+            bound, i_p, ok_b = {}, 0, not any(p.startswith("*") for p in params)
+            for a_ in args:
+                if not ok_b:
+                    break
+                if a_[0] == "star":
+                    k_ = 0
+                    while i_p < len(params):
+                        bound[n(params[i_p])] = ("proj", a_[1], k_)
+                        i_p, k_ = i_p + 1, k_ + 1
+                elif i_p < len(params):
+                    bound[n(params[i_p])] = a_
+                    i_p += 1
+                else:
+                    ok_b = False
+            if ok_b and i_p == len(params):
+                return substitute(f[2], bound)
         t = ("call", f, args, tuple(sorted(kwargs)))
         if not args and not kwargs and f in (("n", "dict"), ("n", "list"), ("n", "set")):
             t = (f[1], (), self._uid()) if f[1] != "set" else ("set", (), self._uid())
@@ -658,7 +716,9 @@ class Evaluator:
         body = sub.run().ret()
         if body is None:
             return t
-        return ("lambda", tuple(params), body)
+        depth = getattr(self, "_lam_depth", 0)
+        canon = tuple(f"_l{depth}_{i_}" for i_ in range(len(params)))
+        return ("lambda", canon, substitute(body, {n(p_): n(c_) for p_, c_ in zip(params, canon)}))
 
     def _canon_call(self, f, args, kwargs):
         """Keyword arguments of calls to liesel functions become positional where that
@@ -670,6 +730,17 @@ class Evaluator:
             params = callee_params(self.repo, f, self.fi.cls)
         except Exception:
             params = None
+        if not params:
+            params = _lib_params(f)
+        if not params and f[0] == "a":
+            # a method called on a value of unknown class: if exactly one class of the
+            # package defines a method of that name, it is that one
+            owners_ = [fi_ for ci_ in self.repo.classes.values()
+                       for fi_ in ci_.methods.get(f[2], [])]
+            sigs = {tuple(fi_.pos_params()[1:]) for fi_ in owners_
+                    if "staticmethod" not in fi_.decorators()}
+            if len(sigs) == 1 and owners_:
+                params = list(next(iter(sigs)))
         if not params:
             return args, kwargs
         kw_ = dict(kwargs)
@@ -971,6 +1042,20 @@ class Evaluator:
         while len(body) == 1 and isinstance(body[0], ast.If) and not body[0].orelse:
             conds.append(body[0].test)
             body = body[0].body
+        # `d = {}` ... `for t in it: [if c:] d[k] = e` is the comprehension {k: e for ...}
+        if len(body) == 1 and isinstance(body[0], ast.Assign) and len(body[0].targets) == 1 \
+                and isinstance(body[0].targets[0], ast.Subscript) \
+                and isinstance(body[0].targets[0].value, ast.Name):
+            tg = body[0].targets[0]
+            name = tg.value.id
+            old = self.env.vars.get(name)
+            if isinstance(old, tuple) and len(old) == 3 and old[0] == "dict" and old[1] == () \
+                    and isinstance(old[2], tuple) and old[2][:1] == ("id",):
+                parts = [st.iter, tg.slice, body[0].value, *conds]
+                if not any(isinstance(x, ast.Name) and x.id == name
+                           for part in parts for x in ast.walk(part)):
+                    return name, (tg.slice, body[0].value), conds
+            return None
         if len(body) != 1 or not isinstance(body[0], ast.Expr):
             return None
         v = body[0].value
@@ -995,7 +1080,10 @@ class Evaluator:
             name, elt, conds = acc
             gen = ast.comprehension(target=st.target, iter=st.iter, ifs=conds, is_async=0)
             ast.copy_location(gen, st)
-            self.env.vars[name] = self._comp("list", [elt], [gen])
+            if isinstance(elt, tuple):
+                self.env.vars[name] = self._comp("dict", list(elt), [gen])
+            else:
+                self.env.vars[name] = self._comp("list", [elt], [gen])
             return None
         self._loop(st, self.expr(st.iter), None)
 
